@@ -28,6 +28,7 @@ type c14Decl struct {
 	Float bool   `json:"float,omitempty"`
 	Keys  int    `json:"keys,omitempty"` // hits: 1 or 2 keys
 	Key0  string `json:"key0,omitempty"` // hits: name of the first key (k or kk)
+	Swap  bool   `json:"swap,omitempty"` // hits with 2 keys: declared `by j, k` instead of `by k, j` (and indexed accordingly)
 }
 
 type c14Spec struct {
@@ -61,9 +62,13 @@ func (s c14Spec) source() string {
 			if k0 == "" {
 				k0 = "k"
 			}
-			sb.WriteString(" by " + k0)
-			if d.Keys == 2 {
-				sb.WriteString(", j")
+			switch {
+			case d.Keys == 2 && d.Swap:
+				sb.WriteString(" by j, " + k0)
+			case d.Keys == 2:
+				sb.WriteString(" by " + k0 + ", j")
+			default:
+				sb.WriteString(" by " + k0)
 			}
 		}
 		sb.WriteString("\n")
@@ -79,6 +84,9 @@ func (s c14Spec) source() string {
 			fmt.Fprintf(&sb, "/^c$/ {\n  ctot += %d\n}\n", inc)
 		case "hits":
 			idx := func(c string) string {
+				if d.Keys == 2 && d.Swap {
+					return "hits[\"x\"][$" + c + "]"
+				}
 				if d.Keys == 2 {
 					return "hits[$" + c + "][\"x\"]"
 				}
@@ -160,7 +168,7 @@ func sameDecl(a, b c14Decl) bool {
 	if bk == "" {
 		bk = "k"
 	}
-	return a.Name == b.Name && a.Kind == b.Kind && a.Float == b.Float && a.Keys == b.Keys && (a.Name != "hits" || ak == bk)
+	return a.Name == b.Name && a.Kind == b.Kind && a.Float == b.Float && a.Keys == b.Keys && (a.Name != "hits" || ak == bk) && (a.Keys != 2 || a.Swap == b.Swap)
 }
 
 // applyLine runs one line through the model of program p.
@@ -184,6 +192,9 @@ func (p *c14Prog) applyLine(mets map[string]*c14Metric, text string) {
 		return m
 	}
 	key := func(m *c14Metric, k string) string {
+		if m.decl.Keys == 2 && m.decl.Swap {
+			return "x\x00" + k
+		}
 		if m.decl.Keys == 2 {
 			return k + "\x00x"
 		}
@@ -664,7 +675,7 @@ func c14RunRaw(raw json.RawMessage) *vstat.Failure {
 func c14Base(prog int) c14Spec {
 	s := c14Spec{Inc: 1, Edit: "base", Decls: []c14Decl{
 		{Name: "ctot", Kind: "counter"},
-		{Name: "hits", Kind: "counter", Keys: 1},
+		{Name: "hits", Kind: "counter", Keys: 1 + prog%2},
 		{Name: "g", Kind: "gauge"},
 	}}
 	if prog == 0 {
@@ -714,7 +725,10 @@ func c14Edit(rt *rapid.T, cur c14Spec, prog int, edits []string) c14Spec {
 	case "keys-changed":
 		for i := range n.Decls {
 			if n.Decls[i].Name == "hits" {
-				if rapid.Bool().Draw(rt, "keycount") {
+				if n.Decls[i].Keys == 2 && rapid.IntRange(0, 2).Draw(rt, "swapkeys") == 0 {
+					// the same two key names, listed the other way round
+					n.Decls[i].Swap = !n.Decls[i].Swap
+				} else if rapid.Bool().Draw(rt, "keycount") {
 					n.Decls[i].Keys = 3 - n.Decls[i].Keys
 				} else if n.Decls[i].Key0 == "kk" {
 					n.Decls[i].Key0 = ""
@@ -765,10 +779,10 @@ func c14Edit(rt *rapid.T, cur c14Spec, prog int, edits []string) c14Spec {
 	return n
 }
 
-var c14AllEdits = []string{"identical", "trailing-comment", "leading-comment", "remove-leading-comment", "swap-declarations", "kind-changed", "kind-changed", "type-changed", "keys-changed", "declaration-added", "declaration-removed", "behaviour-changed", "syntax-error", "collide-with-other-program"}
+var c14AllEdits = []string{"identical", "trailing-comment", "leading-comment", "remove-leading-comment", "swap-declarations", "kind-changed", "kind-changed", "type-changed", "keys-changed", "keys-changed", "declaration-added", "declaration-removed", "behaviour-changed", "syntax-error", "collide-with-other-program"}
 
 func TestC14(t *testing.T) {
-	st := vstat.New("C14", "histories over two program names and a family of versions of one template program (identical, trailing/leading comment, declarations swapped, kind/type/keys changed, declaration added/removed, behaviour changed, syntax error, kind collision with the other program), interleaved with line batches (increments, new label sets, del, del-after marks), unloads and GC; after every step the store is compared with a model and the exporter is scraped. non-trivial = a history with a successful reload of changed source after data exists AND a failed load followed by lines; distinct by history")
+	st := vstat.New("C14", "histories over two program names and a family of versions of one template program (identical, trailing/leading comment, declarations swapped, kind/type/keys changed (number of keys, a key's name, the order of the same two keys), declaration added/removed, behaviour changed, syntax error, kind collision with the other program), interleaved with line batches (increments, new label sets, del, del-after marks), unloads and GC; after every step the store is compared with a model and the exporter is scraped. non-trivial = a history with a successful reload of changed source after data exists AND a failed load followed by lines; distinct by history")
 	st.Assumptions = []string{"quiescence (lines fully processed) is read from the exported line-processing histogram before every control action", "where a declaration moves to another line the statement is silent: kept or fresh state are both accepted", "a metric whose declaration a later version drops is not compared (only duplicates are forbidden)"}
 	st.Run(t, c14RunRaw, func() {
 		edits := c14AllEdits
